@@ -8,18 +8,22 @@ open Firefly.Util Firefly.Ring Firefly.Prefix Firefly.Hal Firefly.C16.Spec
 
 def int! (s : String) : Int := if s.startsWith "-" then - Int.ofNat (nat! (s.drop 1).toString) else Int.ofNat (nat! s)
 
-/-- parse the driver records of a `detect` line -/
-partial def parseDrivers : List String → List Driver
-  | id :: order :: kind :: pok :: name :: maj :: mi :: pat :: err :: nch :: rest =>
+/-- parse the driver records of a `detect` line; the second component is (id, kind token, a, b):
+console a×b characters, shipped VT with scrollback a and tab width b -/
+partial def parseDriversG : List String → List (Driver × (Nat × String × Nat × Nat))
+  | id :: order :: kind :: a :: b :: pok :: name :: maj :: mi :: pat :: err :: nch :: rest =>
     let n := nat! nch
     let d : Driver := {
       id := nat! id, order := int! order,
-      kind := if kind = "0" then .console else if kind = "1" then .tty else .other,
+      kind := if kind = "0" then .console else if kind = "1" ∨ kind = "3" then .tty else .other,
       probeOk := pok = "1", name := hexBytes name, major := nat! maj, minor := nat! mi, patch := nat! pat,
       initLog := (rest.take n).map hexBytes,
       initErr := if err = "ok" then none else some (hexBytes (err.drop 1).toString) }
-    d :: parseDrivers (rest.drop n)
+    (d, (nat! id, kind, nat! a, nat! b)) :: parseDriversG (rest.drop n)
   | _ => []
+
+def parseDrivers (ts : List String) : List Driver := (parseDriversG ts).map (·.1)
+def parseGeo (ts : List String) : List (Nat × String × Nat × Nat) := (parseDriversG ts).map (·.2)
 
 /-- split observation tokens at single-letter markers -/
 def sections (ts : List String) : List (String × List String) :=
@@ -45,6 +49,8 @@ structure St where
   hal : Hal := { ring := emptyAt 0 }
   pw : PW := {}
   regs : List Driver := []
+  geo : List (Nat × String × Nat × Nat) := []
+  specCons : Option Nat := none   -- console the specification says is active
   -- specification state for the oracle
   pending : List UInt8 := []      -- what the early buffer must still hold
   linked : Option Nat := none     -- terminal that must be the sink
@@ -57,12 +63,23 @@ structure St where
 
 def ttyIds (regs : List Driver) : List Nat := (regs.filter (·.kind == .tty)).map (·.id)
 
+def geoOf (geo : List (Nat × String × Nat × Nat)) (i : Nat) : String × Nat × Nat :=
+  ((geo.find? (·.1 = i)).map (·.2)).getD ("?", 0, 0)
+
+def vtIds (geo : List (Nat × String × Nat × Nat)) : List Nat := (geo.filter (·.2.1 = "3")).map (·.1)
+
+/-- the terminal a shipped VT `t` attached to console `c` must be after receiving `bs` -/
+def termFor (geo : List (Nat × String × Nat × Nat)) (t c : Nat) (bs : List UInt8) : Firefly.Term.Term :=
+  let (_, w, h) := geoOf geo c
+  let (_, sb, tab) := geoOf geo t
+  shown w h sb tab bs
+
 /-- model observation; returns the new model state and the canonical text -/
 def modelStep (st : St) (op : List String) (implObs : List String) : St × String :=
   match op with
   | ["reset", p] =>
     let hal : Hal := { ring := emptyAt (nat! p) }
-    ({ st with hal := hal, regs := [] }, s!"{hal.ring.r} {hal.ring.w}")
+    ({ st with hal := hal, regs := [], geo := [] }, s!"{hal.ring.r} {hal.ring.w}")
   | ["w", _, hx] =>
     let hal := st.hal.log (hexBytes hx)
     ({ st with hal := hal }, s!"{optId hal.sink} {hal.ring.r} {hal.ring.w}")
@@ -87,13 +104,26 @@ def modelStep (st : St) (op : List String) (implObs : List String) : St × Strin
       if hal.activeTTY = some i then
         s!" {i} {optId hal.ttyAttached} {hal.ttyState} {hal.ttyAttachCalls} {hal.ttySetStateCalls} {hal.ttyRecv.length}"
       else s!" {i} -1 0 0 0 0")
-    ({ st with hal := hal, regs := regs },
+    ({ st with hal := hal, regs := regs, geo := parseGeo rest },
       s!"S{ids (sorted.map (·.id))} P{ids hal.probes} I{ids hal.inits} C {optId hal.activeConsole} T {optId hal.activeTTY} A{ids hal.activeDrivers} K {optId hal.sink} R {hal.ring.r} {hal.ring.w} Y{ttys}")
   | ["end"] =>
     let ttys := String.join ((ttyIds st.regs).map fun i =>
       s!" {i} {bytesHex (if st.hal.activeTTY = some i then st.hal.ttyRecv else [])}")
     let d := st.hal.ring.drain 700 (3 * N)
-    ({ st with hal := { st.hal with ring := d.2 } }, s!"K {optId st.hal.sink} Y{ttys} R {bytesHex d.1}")
+    -- the shipped terminal: the reference terminal of C17 fed with what the model's TTY received
+    let term : Option (Nat × Nat × Firefly.Term.Term) :=
+      match st.hal.activeTTY, st.hal.ttyAttached with
+      | some t, some c => if (geoOf st.geo t).1 = "3" then some (t, c, termFor st.geo t c st.hal.ttyRecv) else none
+      | _, _ => none
+    let vts := String.join ((vtIds st.geo).map fun i =>
+      match term with
+      | some (t, _, tm) =>
+        if t = i then s!" {i} {tm.cx} {tm.cy} {tm.vy} {st.hal.ttyState} {bytesHex (gridBytes tm.grid)}" else s!" {i} 1 1 0 0 -"
+      | none => s!" {i} 1 1 0 0 -")
+    let grids := match term with
+      | some (_, c, tm) => if st.hal.ttyState = stateActive then s!" {c} {bytesHex (gridBytes tm.viewport)}" else ""
+      | none => ""
+    ({ st with hal := { st.hal with ring := d.2 } }, s!"K {optId st.hal.sink} Y{ttys} R {bytesHex d.1} V{vts} G{grids}")
   | _ => (st, "bad-op")
 
 /-- pairs (id, fields) from the flat `Y` section; `w` fields per terminal -/
@@ -107,7 +137,7 @@ def oracleStep (st : St) (op : List String) (obs : List String) : St × List (St
   if obs = ["hang"] ∨ obs = ["panic"] then (st, [("log-exactly-once", obs.headD "")]) else
   match op with
   | ["reset", _] =>
-    ({ st with pending := [], linked := none, ttyExp := [], failLines := [] }, [])
+    ({ st with pending := [], linked := none, ttyExp := [], failLines := [], specCons := none, geo := [] }, [])
   | ["w", _, hx] =>
     let bs := hexBytes hx
     let st' := match st.linked with
@@ -165,6 +195,7 @@ def oracleStep (st : St) (op : List String) (obs : List String) : St × List (St
          if (st.pending ++ logOf (sorted.take j)).length > cap then "link_prelog_gt_cap" else "link_prelog_le_cap",
          if j < sorted.length then "link_before_last_driver" else "link_at_last_driver"]
       | none => if (st.pending ++ logOf sorted).length > cap then ["unlinked_log_gt_cap"] else [] }
+    let st' := { st' with specCons := c.map Driver.id, geo := parseGeo rest }
     let st' := { st' with failLines := (sorted.filter fun (d : Driver) => d.probeOk && d.initErr.isSome).map fun (d : Driver) => halPrefix d ++ tailOf d }
     -- terminals
     let ys := chunked 6 64 (sect ss "Y")
@@ -202,8 +233,31 @@ def oracleStep (st : St) (op : List String) (obs : List String) : St × List (St
         if st.linked = some (nat! id) then fail (hexBytes hx = st.ttyExp) "log-exactly-once" "tty-stream"
         else fail (hx = "-") "log-exactly-once" "other-tty-silent"
       | _ => [("log-exactly-once", "bad")]
+    -- the shipped terminal must hold, and its console must show, every byte of the expected stream:
+    -- the reference terminal fed with (last cap bytes logged before the link) ++ (everything after)
+    let want : Option (Nat × Nat × Firefly.Term.Term) :=
+      match st.linked, st.specCons with
+      | some t, some c => if (geoOf st.geo t).1 = "3" then some (t, c, termFor st.geo t c st.ttyExp) else none
+      | _, _ => none
+    let vFails := (chunked 6 64 (sect ss "V")).flatMap fun v =>
+      match v, want with
+      | [id, cx, cy, vy, state, data], some (t, _, tm) =>
+        if nat! id = t then
+          fail (hexBytes data = gridBytes tm.grid) "log-exactly-once" "terminal-shows-log" ++
+          fail (nat! cx = tm.cx ∧ nat! cy = tm.cy ∧ nat! vy = tm.vy) "log-exactly-once" "terminal-cursor" ++
+          fail (nat! state = stateActive) "linked-both-orders" "terminal-active"
+        else fail (data = "-" ∧ nat! state = stateInactive) "first-wins" "other-tty-untouched"
+      | [_, _, _, _, state, data], none => fail (data = "-" ∧ nat! state = stateInactive) "first-wins" "other-tty-untouched"
+      | _, _ => [("log-exactly-once", "bad")]
+    let gs := chunked 2 64 (sect ss "G")
+    let gFails :=
+      (match want with
+       | some (_, c, tm) =>
+         fail (gs.any fun g => g = [toString c, bytesHex (gridBytes tm.viewport)]) "log-exactly-once" "console-shows-terminal"
+       | none => []) ++
+      gs.flatMap fun g => fail (want.any fun (_, c, _) => g.head? = some (toString c)) "first-wins" "other-console-untouched"
     (st,
-      yFails ++
+      yFails ++ vFails ++ gFails ++
       fail (ring = (if st.linked.isSome then [] else st.pending)) "log-exactly-once" (if st.linked.isSome then "ring-empty-after-link" else "unlinked-ring") ++
       fail (sect ss "K" = [optId st.linked]) "linked-both-orders" "sink-at-end" ++
       st.failLines.flatMap fun l =>
@@ -242,6 +296,8 @@ def processLine (st : St) (line : String) : IO St := do
     let (st2, fails) := oracleStep { st with notes := [] } op obs
     st := st2
     for k in st.notes do st := { st with stats := st.stats.bump k }
+    if op.head? = some "end" ∧ wasLinked ∧ (st.linked.map fun t => (geoOf st.geo t).1) = some "3" then
+      st := { st with stats := st.stats.bump "end_linked_shipped_vt" }
     if op.head? = some "end" then
       st := { st with stats := st.stats.bump (if wasLinked then "end_linked" else "end_unlinked") }
       if st.ttyExp.length > cap ∧ wasLinked then st := { st with stats := st.stats.bump "end_tty_gt_cap" }
